@@ -200,15 +200,24 @@ class PyFatFS(FS):
             else:
                 # Clean up existing file contents
                 dt = DosDateTime.now(tz=self.tz)
-                dentry.wrttime = dt.serialize_time()
-                dentry.wrtdate = dt.serialize_date()
-                dentry.lstaccessdate = dt.serialize_date()
-                dentry.filesize = 0
                 old_cluster = dentry.get_cluster()
-                dentry.set_cluster(0)
-                if old_cluster != 0:
-                    self.fs.free_cluster_chain(old_cluster)
-                self.fs.update_directory_entry(base)
+                old_fields = (dentry.wrttime, dentry.wrtdate,
+                              dentry.lstaccessdate, dentry.filesize)
+                try:
+                    dentry.wrttime = dt.serialize_time()
+                    dentry.wrtdate = dt.serialize_date()
+                    dentry.lstaccessdate = dt.serialize_date()
+                    dentry.filesize = 0
+                    dentry.set_cluster(0)
+                    if old_cluster != 0:
+                        self.fs.free_cluster_chain(old_cluster)
+                    self.fs.update_directory_entry(base)
+                except Exception:
+                    # Nothing has been written, keep the entry as it was
+                    (dentry.wrttime, dentry.wrtdate,
+                     dentry.lstaccessdate, dentry.filesize) = old_fields
+                    dentry.set_cluster(old_cluster)
+                    raise
                 self.fs.flush_fat()
                 return True
 
@@ -228,7 +237,12 @@ class PyFatFS(FS):
 
         # Write reference to parent directory
         base.add_subdirectory(newdir)
-        self.fs.update_directory_entry(base)
+        try:
+            self.fs.update_directory_entry(base)
+        except Exception:
+            # The entry did not reach the disk, drop it from memory as well
+            base._get_entries_raw().remove(newdir)
+            raise
 
         # Flush FAT(s) to disk
         self.fs.flush_fat()
@@ -284,6 +298,23 @@ class PyFatFS(FS):
         first_cluster = self.fs.allocate_bytes(
             FATDirectoryEntry.FAT_DIRECTORY_HEADER_SIZE * 2,
             erase=True)[0]
+        try:
+            self.__write_new_dir(base, newdir, first_cluster, parent_is_root)
+        except Exception:
+            # The directory did not reach the disk: drop it from memory
+            # and release its cluster again
+            if newdir in base._get_entries_raw():
+                base._get_entries_raw().remove(newdir)
+            self.fs.free_cluster_chain(first_cluster)
+            raise
+
+        # Flush FAT(s) to disk
+        self.fs.flush_fat()
+
+        return SubFS(self, path)
+
+    def __write_new_dir(self, base, newdir, first_cluster, parent_is_root):
+        """Write a new directory and its entry in the parent directory."""
         newdir.set_cluster(first_cluster)
         dot_sn = EightDotThree()
         dot_sn.set_byte_name(b".          ")
@@ -309,11 +340,6 @@ class PyFatFS(FS):
         # Write parent directory
         base.add_subdirectory(newdir)
         self.fs.update_directory_entry(base)
-
-        # Flush FAT(s) to disk
-        self.fs.flush_fat()
-
-        return SubFS(self, path)
 
     def removedir(self, path: str):
         """Remove empty directories from the filesystem.
@@ -392,8 +418,15 @@ class PyFatFS(FS):
                                 in ``parent_dir``
         """
         # Remove entry from parent directory
+        entries = parent_dir._get_entries_raw()
+        entries_before = list(entries)
         parent_dir.remove_dir_entry(str(dir_entry))
-        self.fs.update_directory_entry(parent_dir)
+        try:
+            self.fs.update_directory_entry(parent_dir)
+        except Exception:
+            # Nothing has been written, keep the entry in memory as well
+            entries[:] = entries_before
+            raise
 
         # Mark dentry as free
         dir_entry.mark_empty()
@@ -480,6 +513,8 @@ class PyFatFS(FS):
         ctime = details.get("created")
         mtime = details.get("modified")
         atime = details.get("accessed")
+        old_fields = (dentry.crttime, dentry.crtdate, dentry.wrttime,
+                      dentry.wrtdate, dentry.lstaccessdate)
         if ctime:
             ctime = DosDateTime.fromtimestamp(ctime, tz=self.tz)
             dentry.crttime = ctime.serialize_time()
@@ -492,7 +527,13 @@ class PyFatFS(FS):
             atime = DosDateTime.fromtimestamp(atime, tz=self.tz)
             dentry.lstaccessdate = atime.serialize_date()
 
-        self.fs.update_directory_entry(dentry.get_parent_dir())
+        try:
+            self.fs.update_directory_entry(dentry.get_parent_dir())
+        except Exception:
+            # Nothing has been written, keep the old timestamps
+            (dentry.crttime, dentry.crtdate, dentry.wrttime,
+             dentry.wrtdate, dentry.lstaccessdate) = old_fields
+            raise
 
 
 class PyFatBytesIOFS(PyFatFS):
